@@ -66,6 +66,7 @@ def check(repo, tier="quick"):
     res.rule("C25.g", "history independence of picture output: the command, file_format and the dimension/depth computation keep no state between pictures")
     res.rule("C25.h", "the command's own arithmetic and naming are total: every division in the command has a divisor that cannot be zero (a non-zero literal, `x or K`, `max(K, x)`) -- the file size of an empty input is 0 and the status line is drawn before the stream is parsed; the .json/.raw names are both formed from os.path.splitext(name)[0], which strips an extension from the last path component only")
     res.rule("C25.i", "contents of the written files: the sample, metadata and file-pair rules of the raw picture format (C23.a, C23.b, C23.c) re-evaluated -- exact-integer conversion at any depth, every byte of every sample written, metadata keys complete")
+    res.rule("C25.j", "every conformance error the command reports can be explained and located (C02.6 re-evaluated: explain defined, attributes stored before use, format templates and arities agree, the level is recorded before any other level-constrained value is checked, digit limit lifted)")
     res.rule("C25.f", "main() returns run()'s status, which the entry point passes to sys.exit; output pattern is validated before use")
 
     m, cls = repo.cls(SCRIPT + ":BitstreamValidator")
@@ -244,6 +245,14 @@ def check(repo, tier="quick"):
     for _o in _sub.obs:
         res._add(_Ob("C25.i", "%s/%s" % (_o.rule, _o.key), _o.where, _o.status, _o.detail, _o.by, _o.path))
     res.floor("C25.i", 10)
+    # exit 2 "with a located explanation" needs every reported error to explain itself: C02.6 re-evaluated (the
+    # viewer-hint option spelling is decided under C02 only -- known finding K5 there)
+    from . import c02 as _c02
+
+    for _o in _c02.check(repo, "quick").obs:
+        if _o.rule == "C02.6" and not _o.key.endswith(":hint-options-known-to-viewer"):
+            res._add(_Ob("C25.j", "%s/%s" % (_o.rule, _o.key), _o.where, _o.status, _o.detail, _o.by, _o.path))
+    res.floor("C25.j", 150)
     from .. import globals_state
 
     globals_state.rule(repo, res, "C25.g", ["scripts.vc2_bitstream_validator", "file_format", "dimensions_and_depths", "py2x_compat", "string_utils"], what="the files written for one picture (a later picture of another format would be written with an earlier one's parameters)")
